@@ -215,6 +215,8 @@ class RealWrap:
             (self.gm.enable_hooks if o[1] == "1" else self.gm.disable_hooks)()
         elif o[0] == "unwrap":
             self.unwrapped = self.gm.to_standard_module()
+            # graphs built through the wrapper and not yet backpropagated stay usable: `loss.backward()` after unwrapping is ordinary use
+            self.inflight = list(self.losses) if self.mode in ("hooks", "functorch") else []
             self.losses = []
         else:
             raise ValueError("bad op " + " ".join(o))
